@@ -1,18 +1,88 @@
-(* C05 — precise search = exhaustive negamax.  Only statements, `exact`, and Print Assumptions live here. *)
-From Coq Require Import ZArith List Bool.
-Require Import Pvs.
+(* C05 — precise search = exhaustive negamax; verdicts hold on reused engines.
+   Only statements, `exact`, and Print Assumptions live here.  Proofs: Pvs.v, NegamaxSpec.v, SearchGen.v, SearchExact.v; model: Search.v.
+
+   Full statement of the property (DESIGN 5.5) and what is proved:
+     zw_correct / pvs_correct      PROVED, abstractly (C05_pvs_correct) and for the concrete engine model (C05_search_window_partial).
+     analyze_precise_exact         PROVED for the engine model Search.v, on every engine state without a table (fresh or left by ANY
+                                   history of earlier calls), modulo explicitly listed facts about the rules engine and the evaluator
+                                   (rules_facts: C03's "every accepted move is generated", a bound on the number of generated moves,
+                                   "an unfinished game has a legal move", C18's |eval| <= MaxEval) — hence the suffix _partial.
+     analyze_all_exact             not proved (AnalyzeAll is modelled, Search.analyze_all; its set of first moves is compared with the
+                                   exhaustive oracle and with the implementation on every run).
+     dedup_value_preserving        not proved and not modelled (DedupSymmetry); judged by the exhaustive oracle only.
+     tt_valid_preserved / win_sound_complete (the table clause)   not proved; tested on every run against the forced-result solver on
+                                   fresh engines and after histories of calls (repeats, neighbours, cancelled calls, tables of 2 entries up).
+
+   How Search.v's pvSearch/zwSearch instantiate the abstract PVS of Pvs.v.  Pvs.v fixes a finite game tree T ev over kids, evaluates
+   [negamax d], and defines [zw d t a] (zero-window: the children are scouted with window (-a-1, -a); the node returns a+1 if some child
+   beats a, else a; leaves and finished games return the raw evaluation) and [pv d t a b] (first child with the full window, later
+   children with a zero-window scout and a re-search only when the scout lands strictly inside (a, b); cut-off at b).  These are exactly
+   the value computations of Search.zw_node/zw_loop and Search.pv_node/pv_loop/pv_child once the table, null-move, slide reduction and
+   multi-cut are off.  The concrete search differs in what Pvs.v abstracts away: the children are not a fixed list — they are produced
+   by the move generator (Search.mg_next) from the hint moves pv[0] and the response move, then AllMoves in history order, so their
+   order depends on the engine state and a successor can be searched twice; and the search threads frames, history/response tables and
+   the principal variation through every call.  SearchGen.v proves that without a table entry the generator yields only legal
+   successors and, when exhausted, has yielded every legal successor at least once (whatever the state does in between);
+   SearchExact.v replays the induction of Pvs.pvs_correct (window trichotomy, simultaneously for zw and pv, by induction on the depth)
+   on the concrete loops with "the successors seen so far" in place of the list prefix, against NegamaxSpec.nmx — which is
+   Pvs.negamax on the game tree of the rules model (tree_of). *)
+From Coq Require Import NArith ZArith List Bool.
+Require Import Board Move GameOver Eval Search NegamaxSpec SearchGen SearchExact.
+Require Pvs.
+Import ListNotations.
 Open Scope Z_scope.
 
-(* Abstract principal-variation search (Pvs.v: [pv] with first-child full window, zero-window scouts [zw] for the later
-   children, re-search when the scout lands strictly inside the window, fail-hard scouts) on ANY finite game tree with ANY
-   evaluation, to ANY depth: the value returned for the window (a, b) obeys the negamax trichotomy, in particular it IS the
-   negamax value whenever that lies inside the window. *)
+(* Abstract principal-variation search on ANY finite game tree with ANY evaluation, to ANY depth: the value returned for the window
+   (a, b) obeys the negamax window trichotomy; in particular it IS the negamax value whenever that lies inside the window. *)
 Theorem C05_pvs_correct : forall d,
-  (forall t a, wft d t ->
-     (negamax d t <= a -> negamax d t <= zw d t a <= a) /\ (a < negamax d t -> a < zw d t a <= negamax d t)) /\
-  (forall t a b, wft d t -> a < b ->
-     (negamax d t <= a -> negamax d t <= pv d t a b <= a) /\
-     (a < negamax d t < b -> pv d t a b = negamax d t) /\
-     (b <= negamax d t -> b <= pv d t a b <= negamax d t)).
-Proof. exact pvs_correct. Qed.
+  (forall t a, Pvs.wft d t ->
+     (Pvs.negamax d t <= a -> Pvs.negamax d t <= Pvs.zw d t a <= a) /\ (a < Pvs.negamax d t -> a < Pvs.zw d t a <= Pvs.negamax d t)) /\
+  (forall t a b, Pvs.wft d t -> a < b ->
+     (Pvs.negamax d t <= a -> Pvs.negamax d t <= Pvs.pv d t a b <= a) /\
+     (a < Pvs.negamax d t < b -> Pvs.pv d t a b = Pvs.negamax d t) /\
+     (b <= Pvs.negamax d t -> b <= Pvs.pv d t a b <= Pvs.negamax d t)).
+Proof. exact Pvs.pvs_correct. Qed.
 Print Assumptions C05_pvs_correct.
+
+(* The concrete search of the engine model (both variants of the code, pinned or repaired; any sort setting; never cancelled), precise
+   options, no table: for every depth d below the fuel, every state satisfying the invariant SI (no table, no Pass among the stored hint
+   moves), every position of Pos, every hint line pv and every window, zwSearch (zw = true) and pvSearch (zw = false) return a value
+   obeying the window trichotomy with respect to exhaustive negamax (nmx) of the rules model under the engine's evaluation function,
+   pvSearch's line starts with a move attaining the value when it is exact, and the state afterwards satisfies SI again. *)
+Theorem C05_search_window_partial : forall pinned basis cfg Pos, precise cfg -> rules_facts basis cfg Pos ->
+  forall f d, (d < f)%nat -> rec_ok basis cfg Pos d (srch pinned basis cfg 0 f).
+Proof.
+  intros pinned basis cfg Pos (P1 & P2 & P3) (R1 & R2 & R3 & R4 & _). exact (srch_ok pinned basis cfg P1 P2 P3 Pos R1 R2 R3 R4).
+Qed.
+Print Assumptions C05_search_window_partial.
+
+(* Analyze (iterative deepening, repaired code) with the value-preserving options and no table, on a fresh engine or after any history
+   of earlier calls: whenever it reports a depth d > 0, the reported value is the exhaustive negamax value to depth d under the same
+   evaluation function and the first move of the reported line attains it:
+     exact_result basis cfg p pv v d  :=  v = nmx basis (c_eval cfg) d p  /\
+        exists m rest q, pv = m :: rest /\ try_move basis p m = Some q /\ In q (children basis p) /\ - nmx basis (c_eval cfg) (d-1) q = v. *)
+Theorem C05_analyze_precise_exact_partial : forall basis cfg Pos, precise cfg -> rules_facts basis cfg Pos ->
+  forall s p sk pv v d acc c, SI s -> Pos p ->
+  analyze_search basis cfg s p = (sk, (pv, v, d, acc, c)) ->
+  SI sk /\ (0 < d -> exact_result basis cfg p pv v d).
+Proof. exact analyze_precise_exact_fixed. Qed.
+Print Assumptions C05_analyze_precise_exact_partial.
+
+(* a fresh engine without a table satisfies SI *)
+Theorem C05_fresh_engine_invariant : SI (new_state 0).
+Proof. exact (SI_new 0 eq_refl). Qed.
+Print Assumptions C05_fresh_engine_invariant.
+
+(* The assumptions (precise, rules_facts) are jointly satisfiable: winner-only evaluation with Pos = the finished games.  (This shows
+   the hypotheses are not contradictory; that they hold on the positions the engine searches is what C01/C03/C18 and the oracle say.) *)
+Theorem C05_assumptions_consistent : forall basis depth nosort,
+  let cfg := {| c_depth := depth; c_nosort := nosort; c_nonull := true; c_noreduce := true; c_multicut := false; c_eval := evaluate_winner |} in
+  precise cfg /\ rules_facts basis cfg (fun p => is_over p = true).
+Proof. exact rules_facts_consistent. Qed.
+Print Assumptions C05_assumptions_consistent.
+
+(* Two of the facts the search needs about the rules model are proved rather than assumed: AllMoves never generates Pass, and moves
+   that are Move.Equal have the same effect. *)
+Theorem C05_equal_moves_same_effect : forall basis p a b, move_equal a b = true -> try_move basis p a = try_move basis p b.
+Proof. exact move_equal_try. Qed.
+Print Assumptions C05_equal_moves_same_effect.
